@@ -14,12 +14,16 @@ import (
 // C14: the decision cache of CachedEnforcer / SyncedCachedEnforcer is transparent.
 //
 // Every case is a history of operations run on a REAL wrapper built from the basic ACL model
-// and a string adapter with a fixed text (auto-save off).  After every step the harness
+// (or, c14cx.go, from a model with several request / policy / effect / matcher sections that
+// requests select with a leading casbin.EnforceContext) and a string adapter with a fixed text
+// (auto-save off).  After every step the harness
 // records what the call returned and what the EMBEDDED enforcer answers for a probe set of
 // requests; the extracted Coq model (coq/Cache.v, ACL fixture) must print the same lines.
 // In addition the property's own predicate is evaluated on the implementation: inside the
-// guards of theorem C14_transparent_acl_general the wrapper's answer must equal the embedded
-// enforcer's answer.
+// guards of the theorems C14_transparent_acl_general / C14_transparent_cx (request without a
+// context, listed invalidating operations only) and C14_transparent_quiet (any request, no
+// mutator called since the cache was last empty) the wrapper's answer must equal the answer of
+// the embedded enforcer, which is an uncached twin in the same state.
 
 const c14ModelText = "[request_definition]\nr = sub, obj, act\n[policy_definition]\np = sub, obj, act\n[policy_effect]\ne = some(where (p.eft == allow))\n[matchers]\nm = r.sub == p.sub && r.obj == p.obj && r.act == p.act\n"
 
